@@ -131,7 +131,7 @@ ALSO = {
  "C19": " Also: the prefix/suffix predicates agree with bytes.HasPrefix/HasSuffix. After round 5: handles are removed only on exits that finished the transaction. After round 7: idle criterion cross-listed. After round 8: responses list distinct elements; handlers keep no state.",
  "C20": " Also: the temporary manifest file is truncated (or created exclusively) when opened. After round 6: manifest entries grow only with validated configurations. After round 7: Config.Update exclusive; defaults only for nil. After round 8: the current entry is the listed entry.",
  "C13": " Also: Compress/Decompress handle the same codecs with inverse library calls and return fresh memory; per entry type the applier performs the primary's operation with the entry's own key and value. After round 5: no narrowing of encoder values; decoder minimum ≤ encoder minimum; Apply always performs the operation. After round 7: applied prefix recorded (open finding: the prefix of a failed batch is re-applied).",
- "C14": " Also (shared with C13): the replica's cursor discipline; the 'nothing to send' exits of the catch-up reader are decided by the log's own counter; the replica does not lower its gRPC receive limit below the default. After round 5: GetEntriesFrom flushes before reading; entry codec agreement. After round 6: the replica accepts whatever size the primary sends; the error state always returns to CONNECTING. After round 7: the state loop never gives up; the poll sends what it read.",
+ "C14": " Also (shared with C13): the replica's cursor discipline; the 'nothing to send' exits of the catch-up reader are decided by the log's own counter; the replica does not lower its gRPC receive limit below the default. After round 5: GetEntriesFrom flushes before reading; entry codec agreement. After round 6: the replica accepts whatever size the primary sends; the error state always returns to CONNECTING. After round 7: the state loop never gives up; the poll sends what it read. After round 8: connecting always dials; the time in the current state is counted from the latest entry into it.",
  "C08": " Also: every Append* reads the closed/rotating status with WAL.mu held. After round 5: every recovered entry counts into the running maximum; every counter access holds WAL.mu. After round 6: explicit sequence numbers stay below the counter; a log exists before recovery hands the counter over; the reported position is never assigned unguarded in a goroutine; retention criterion cross-listed. After round 7: GetNextSequence answers in every state; acknowledged positions only move forward. After round 8: replay accepts every legal entry type.",
  "C09": " Also: Append routes by exactly the payload size writeRecord builds; parseEntryData's slices are bounds-checked. After round 5: ReuseWAL reopens the newest file only; no constant bound on decoded lengths in the reader. After round 6: explicit sequence numbers stay below the counter. After round 7: fragments are concatenated. After round 8: file bounds test every entry both ways.",
  "C10": " Also: the errors ReplayWALFile returns from its damage-handling region are classified 'skip' by ReplayWALDir; no read after the first of a record can leave readRecord as a clean io.EOF. After round 5: an explicit io.EOF only behind err == io.EOF. After round 6: a log exists before recovery. After round 7: resynchronisation drops pending fragments. After round 8: pending fragments are dropped at a damaged record (tree defect repaired 4f4a928; the rule re-stated).",
